@@ -113,16 +113,6 @@ func generate(f filter.Filter, g filter.FilterGenerator, keys [][]byte) (out []b
 	return append([]byte{}, b.Bytes()...), false
 }
 
-// panics of the generator are expected only when the uint32 bit count wraps to < 8 (negative or
-// absurd bits-per-key); the model says exactly when (bloom_generate = None)
-func wrapsToZero(bpk, n int) bool {
-	nbits := uint32(n * bpk)
-	if nbits < 64 {
-		return false
-	}
-	return (nbits+7)/8 == 0
-}
-
 func checkBloom(c *ctx, bc bloomCase, wantK bool) []string {
 	r := vlib.NewRNG(bc.Seed)
 	var keys [][]byte
@@ -144,10 +134,8 @@ func checkBloom(c *ctx, bc bloomCase, wantK bool) []string {
 	flt, pan := generate(f, g, keys)
 	var cases []string
 	if pan {
-		if !wrapsToZero(bc.Bpk, len(keys)) || len(keys) == 0 {
-			c.res.Violate(fmt.Sprintf("bloom generator panicked: bits-per-key %d, %d keys", bc.Bpk, len(keys)), rep)
-		}
-		c.res.Count("bloom_generate_panics_bitcount_wrap", 1)
+		// since the repairs of bloom.go no int bits-per-key makes the generator panic (C16_bloom_generate_total)
+		c.res.Violate(fmt.Sprintf("bloom generator panicked: bits-per-key %d, %d keys", bc.Bpk, len(keys)), rep)
 		if wantK {
 			cases = append(cases, fmt.Sprintf("CBloom (%d)%%Z [%s] None []", bc.Bpk, joinSemi(hexList(keys))))
 		}
@@ -183,8 +171,8 @@ func checkBloom(c *ctx, bc bloomCase, wantK bool) []string {
 		}
 	})
 	// the generator is reusable after Generate: the second filter covers the second set
-	// (not for negative bits-per-key: the uint32 bit count would ask for hundreds of megabytes)
-	reuse := bc.Bpk >= 1 && uint32(bc.Bpk) <= 1000
+	// (a negative bits-per-key reads as 0 since the repair: the minimum length)
+	reuse := bc.Bpk <= 1000
 	var flt2 []byte
 	pan2 := false
 	if reuse {
@@ -280,18 +268,20 @@ func runBloom(c *ctx, r *vlib.RNG) []string {
 		}
 	}
 	// outside the documented range: 0, negative, k wrapping through uint8, int overflow in f*69
-	for _, bpk := range []int{0, -1, -5, -100, 65, 100, 145, 371, 372, 400, 1000, 1 << 32, 1<<32 + 10, 1 << 62, -(1 << 62), 1<<63 - 1, -(1 << 63)} {
+	for _, bpk := range []int{0, -1, -5, -100, -1000, 65, 100, 145, 371, 372, 400, 1000, 1 << 32, 1<<32 + 10, 1 << 62, -(1 << 62), 1<<63 - 1, -(1 << 63)} {
 		wk := bud.bloomKReps > 0
 		add(bpk, 0, wk)
 		if bpk > 0 && bpk <= 1000 {
 			add(bpk, r.Range(1, 40), wk)
 			add(bpk, r.Range(41, 300), false)
 		}
-		if bpk >= 1<<32 && bpk < 1<<33 {
-			add(bpk, r.Range(1, 30), wk)
+		if bpk <= 0 { // negative reads as 0: 64-bit filters, compared byte for byte
+			add(bpk, r.Range(1, 40), wk)
+			add(bpk, r.Range(41, 300), false)
 		}
+		// bpk >= 2^32 with keys: 512 MiB filters since the repair (the ceiling): section "extreme"
 	}
-	for n := 1; n <= 7; n++ { // the bit count wraps below 8: divide by zero in Generate
+	for n := 1; n <= 7; n++ { // before the repair the bit count wrapped below 8: divide by zero in Generate
 		add(-1, n, bud.bloomKReps > 0)
 	}
 	add(-5, 1, bud.bloomKReps > 0)
